@@ -33,6 +33,7 @@ explicit decidable guards.  Both witnesses are replayed on the binary by the che
 (fingerprints C10:-V:future-price-marks-primary, C10:-V:future-price-reorders-neighbours).
 -/
 import LedgerModel.Lemmas.Prices
+import LedgerModel.Lemmas.PriceRoute
 import LedgerModel.Model.PricesPinned
 
 namespace Ledger
@@ -364,6 +365,271 @@ theorem C10.market_future_irrelevant_partial (V : List Comm) (hist : List Entry)
       · exact h'
     simp only [valueV, hprim, hl, marketPick_filter_date hg]
 
+/-! ### graphs with several routes (history.cc 435-546 in general)
+
+`routeW choose` is boost's Dijkstra over the edges that have a price point at the moment,
+with `distance_combine = max` (the length of a route is the age of its OLDEST price), and
+`choose` standing for `Q.top()`.  Everything below is proved for every `choose` that returns
+some gray vertex of least distance (`ChoiceOk`): it therefore holds whatever boost's heap
+does with equally distant vertices.  `routeOf` / `valueXG` are the instance that pops what
+boost 1.83's 4-ary heap pops (`popChoice_ok`). -/
+
+/-- The chosen route is a simple path from the holding's commodity to the target, each step
+    of which has a price point at the moment … -/
+theorem C10.route_is_applicable (choose : DState → Option Comm) (hch : ChoiceOk choose)
+    (hist : List Entry) (D : Int) (c tgt : Comm) (p : List Comm)
+    (h : routeW choose (fgraph hist D) D c tgt = some p) :
+    p.head? = some c ∧ p.getLast? = some tgt ∧ p.Nodup ∧ Linked (fun a b => recentEdge hist a b D) p :=
+  let ⟨h1, h2, _, h4, h5, _⟩ := routeW_sound hch hist D c tgt p h
+  ⟨h1, h2, h4, h5⟩
+
+/-- … and that price point is a recorded price of the pair dated not after `D`, with no
+    recorded price of the pair in `(chosen, D]`. -/
+theorem C10.route_steps_are_latest (choose : DState → Option Comm) (hch : ChoiceOk choose)
+    (hist : List Entry) (D : Int) (c tgt : Comm) (p : List Comm)
+    (h : routeW choose (fgraph hist D) D c tgt = some p)
+    (pre : List Comm) (a b : Comm) (rest : List Comm) (hp : p = pre ++ a :: b :: rest) :
+    ∃ e, recentEdge hist a b D = some e ∧ e ∈ hist ∧ e.onPair a b ∧ e.date ≤ D ∧
+      ∀ x ∈ hist, x.onPair a b → x.date ≤ D → x.date ≤ e.date := by
+  have hl := (C10.route_is_applicable choose hch hist D c tgt p h).2.2.2
+  rw [hp] at hl
+  obtain ⟨e, he⟩ := Option.isSome_iff_exists.mp (linked_infix pre a b rest hl)
+  exact ⟨e, he, recentEdge_sound he⟩
+
+/-- Dijkstra's correctness for the model: among ALL paths of price points from the
+    commodity to the target (simple or not), none has a more recent oldest price than
+    the chosen route. -/
+theorem C10.route_minimal (choose : DState → Option Comm) (hch : ChoiceOk choose)
+    (hist : List Entry) (D : Int) (c tgt : Comm) (p : List Comm)
+    (h : routeW choose (fgraph hist D) D c tgt = some p)
+    (p' : List Comm) (hh : p'.head? = some c) (hl : p'.getLast? = some tgt)
+    (hlink : Linked (fun a b => recentEdge hist a b D) p') :
+    oldestAge (fun a b => recentEdge hist a b D) D p ≤ oldestAge (fun a b => recentEdge hist a b D) D p' :=
+  (routeW_sound hch hist D c tgt p h).2.2.2.2.2 p' hh hl hlink
+
+/-- A route is found whenever there is one. -/
+theorem C10.route_complete (choose : DState → Option Comm) (hch : ChoiceOk choose)
+    (hist : List Entry) (D : Int) (c tgt : Comm) (hne : c ≠ tgt)
+    (p' : List Comm) (hh : p'.head? = some c) (hl : p'.getLast? = some tgt)
+    (hlink : Linked (fun a b => recentEdge hist a b D) p') :
+    ∃ p, routeW choose (fgraph hist D) D c tgt = some p :=
+  routeW_complete hch hist D c tgt hne p' hh hl hlink
+
+/-- The LENGTH of the route (age of its oldest price) does not depend on how ties are broken. -/
+theorem C10.route_age_tie_independent (ch₁ ch₂ : DState → Option Comm) (h₁ : ChoiceOk ch₁) (h₂ : ChoiceOk ch₂)
+    (hist : List Entry) (D : Int) (c tgt : Comm) (p₁ p₂ : List Comm)
+    (hp₁ : routeW ch₁ (fgraph hist D) D c tgt = some p₁) (hp₂ : routeW ch₂ (fgraph hist D) D c tgt = some p₂) :
+    oldestAge (fun a b => recentEdge hist a b D) D p₁ = oldestAge (fun a b => recentEdge hist a b D) D p₂ := by
+  have a1 := C10.route_is_applicable ch₁ h₁ hist D c tgt p₁ hp₁
+  have a2 := C10.route_is_applicable ch₂ h₂ hist D c tgt p₂ hp₂
+  have m1 := C10.route_minimal ch₁ h₁ hist D c tgt p₁ hp₁ p₂ a2.1 a2.2.1 a2.2.2.2
+  have m2 := C10.route_minimal ch₂ h₂ hist D c tgt p₂ hp₂ p₁ a1.1 a1.2.1 a1.2.2.2
+  omega
+
+/-- The date reported with the chained price (`least_recent`, history.cc 470-504) is the
+    moment minus the route's length. -/
+theorem C10.route_least_recent (choose : DState → Option Comm) (hch : ChoiceOk choose)
+    (hist : List Entry) (D : Int) (c tgt : Comm) (p : List Comm)
+    (h : routeW choose (fgraph hist D) D c tgt = some p) :
+    ∃ m, leastRecent (fun a b => recentEdge hist a b D) p = some m ∧
+      oldestAge (fun a b => recentEdge hist a b D) D p = D - m := by
+  have ⟨h1, _, h3, _, h5, _⟩ := routeW_sound hch hist D c tgt p h
+  cases p with
+  | nil => simp at h1
+  | cons a tl =>
+    have htl : tl ≠ [] := by intro he; rw [he] at h3; simp at h3
+    obtain ⟨m, hm, hmD, hb⟩ := leastRecent_oldest hist D tl a htl h5
+    refine ⟨m, hm, ?_⟩
+    unfold oldestAge
+    rw [hb 0]
+    omega
+
+/-- The value on any price graph: unconverted, or exactly `q × Π` of the factors along the
+    chosen route. -/
+theorem C10.value_exact_general (choose : DState → Option Comm) (hist : List Entry) (D : Int) (tgt : Comm) (h : Holding) :
+    valueW choose (fgraph hist D) D tgt h = (h.q, h.comm) ∨
+    ∃ (p : List Comm) (r : Rat), routeW choose (fgraph hist D) D h.comm tgt = some p ∧
+      rateAlong (fun a b => recentEdge hist a b D) p = some r ∧
+      valueW choose (fgraph hist D) D tgt h = (h.q * r, tgt) := by
+  have hre : feLookup (fgraph hist D) = fun a b => recentEdge hist a b D := by
+    funext a b; exact feLookup_fgraph hist D a b
+  unfold valueW
+  split
+  · exact Or.inl rfl
+  · split
+    · exact Or.inl rfl
+    · rename_i p hp
+      rw [hre]
+      cases hr : rateAlong (fun a b => recentEdge hist a b D) p with
+      | none => exact Or.inl rfl
+      | some r => exact Or.inr ⟨p, r, hp, hr, rfl⟩
+
+/-- With no path of price points to the target the holding stays as it is (general graphs). -/
+theorem C10.unreachable_unconverted (choose : DState → Option Comm) (hch : ChoiceOk choose)
+    (hist : List Entry) (D : Int) (tgt : Comm) (h : Holding)
+    (hno : ¬ ∃ p : List Comm, p.head? = some h.comm ∧ p.getLast? = some tgt ∧ 2 ≤ p.length ∧
+        Linked (fun a b => recentEdge hist a b D) p) :
+    valueW choose (fgraph hist D) D tgt h = (h.q, h.comm) := by
+  unfold valueW
+  split
+  · rfl
+  · split
+    · rfl
+    · rename_i p hp
+      have ⟨h1, h2, h3, _, h5, _⟩ := routeW_sound hch hist D h.comm tgt p hp
+      exact absurd ⟨p, h1, h2, h3, h5⟩ hno
+
+/-- On a forced chain (single edge, reversed edge, simple chain, walk through a forest) the
+    general route choice is the chain, whatever the tie-break: … -/
+theorem C10.route_coincides_on_chain (choose : DState → Option Comm) (hch : ChoiceOk choose)
+    (V : List Comm) (hist : List Entry) (D : Int) (c tgt n : Comm) (rest : List Comm)
+    (hV : ∀ e ∈ hist, e.src ∈ V ∧ e.tgt ∈ V)
+    (hc : ChainFrom (fun a b => (recentEdge hist a b D).isSome) V [] c (n :: rest))
+    (hl : (c :: n :: rest).getLast? = some tgt) :
+    routeW choose (fgraph hist D) D c tgt = some (c :: n :: rest) := by
+  have hne : c ≠ tgt := by
+    intro heq
+    have hm : tgt ∈ n :: rest := by
+      rw [List.getLast?_cons_cons] at hl
+      exact List.mem_of_getLast? hl
+    exact chainFrom_fresh _ _ _ hc tgt hm (by simp [heq])
+  -- the chain itself is a path of price points
+  have hchain : Linked (fun a b => recentEdge hist a b D) (c :: n :: rest) := by
+    have hpath := dfs_chain _ V tgt (n :: rest) [] c ((n :: rest).length + 1) hc (by omega) hl
+    exact (dfs_sound (fun a b => recentEdge hist a b D) V tgt _ _ _ _ hpath).2.2
+  obtain ⟨p, hp⟩ := routeW_complete hch hist D c tgt hne (c :: n :: rest) rfl hl hchain
+  have ⟨h1, h2, _, h4, h5, _⟩ := routeW_sound hch hist D c tgt p hp
+  cases p with
+  | nil => simp at h1
+  | cons a tl =>
+    simp at h1; subst h1
+    have hmemV : ∀ x ∈ tl, x ∈ V := by
+      intro x hx
+      obtain ⟨e, he, hx'⟩ := linked_mem_hist tl a h5 x hx
+      rcases hx' with rfl | rfl
+      · exact (hV e he).1
+      · exact (hV e he).2
+    have := chain_unique (fun a b => (recentEdge hist a b D).isSome) V tgt (n :: rest) [] a tl hc hl h2
+      (linked_adj _ h5) h4 hmemV (by simp)
+    rw [hp, this]
+
+/-- … so there the general valuation is the one of `valueX`, and every theorem above about
+    `valueX` on forced chains is a statement about ledger's route choice. -/
+theorem C10.value_coincides_on_chain (choose : DState → Option Comm) (hch : ChoiceOk choose)
+    (V : List Comm) (hist : List Entry) (D : Int) (tgt : Comm) (h : Holding) (n : Comm) (rest : List Comm)
+    (hV : ∀ e ∈ hist, e.src ∈ V ∧ e.tgt ∈ V)
+    (hc : ChainFrom (fun a b => (recentEdge hist a b D).isSome) V [] h.comm (n :: rest))
+    (hlen : (n :: rest).length ≤ V.length)
+    (hl : (h.comm :: n :: rest).getLast? = some tgt) :
+    valueW choose (fgraph hist D) D tgt h = valueX V hist D tgt h := by
+  have hroute := C10.route_coincides_on_chain choose hch V hist D h.comm tgt n rest hV hc hl
+  obtain ⟨r, hr, hv⟩ := C10.value_exact_chain V hist D tgt h n rest hc hlen hl
+  have hne : h.comm ≠ tgt := by
+    intro heq
+    have hm : tgt ∈ n :: rest := by
+      rw [List.getLast?_cons_cons] at hl
+      exact List.mem_of_getLast? hl
+    exact chainFrom_fresh _ _ _ hc tgt hm (by simp [heq])
+  have hre : feLookup (fgraph hist D) = fun a b => recentEdge hist a b D := by
+    funext a b; exact feLookup_fgraph hist D a b
+  rw [hv]
+  unfold valueW
+  simp only [hne, if_false, hroute, hre, hr]
+
+/-- On forced chains prices dated after `D` never influence ledger's `-X` valuation
+    (the property's last sentence, for the property's graphs, for the real route choice). -/
+theorem C10.future_irrelevant_on_chain (choose : DState → Option Comm) (hch : ChoiceOk choose)
+    (V : List Comm) (hist : List Entry) (D : Int) (tgt : Comm) (h : Holding) (n : Comm) (rest : List Comm)
+    (hV : ∀ e ∈ hist, e.src ∈ V ∧ e.tgt ∈ V)
+    (hc : ChainFrom (fun a b => (recentEdge hist a b D).isSome) V [] h.comm (n :: rest))
+    (hlen : (n :: rest).length ≤ V.length)
+    (hl : (h.comm :: n :: rest).getLast? = some tgt) :
+    valueW choose (fgraph (hist.filter (fun e => e.date ≤ D)) D) D tgt h = valueW choose (fgraph hist D) D tgt h := by
+  have hadj : (fun a b => (recentEdge (hist.filter (fun e => e.date ≤ D)) a b D).isSome) =
+      (fun a b => (recentEdge hist a b D).isSome) := by
+    funext a b; rw [recentEdge_filter_date]
+  have hV' : ∀ e ∈ hist.filter (fun e => e.date ≤ D), e.src ∈ V ∧ e.tgt ∈ V :=
+    fun e he => hV e (List.mem_filter.mp he).1
+  rw [C10.value_coincides_on_chain choose hch V hist D tgt h n rest hV hc hlen hl,
+      C10.value_coincides_on_chain choose hch V _ D tgt h n rest hV' (by rw [hadj]; exact hc) hlen hl,
+      C10.future_irrelevant]
+
+/-- The property's last sentence for `-X` on ALL price graphs, at full strength. -/
+def C10.ExchangeFutureIrrelevantGeneral : Prop :=
+  ∀ (hist : List Entry) (D : Int) (tgt : Comm) (h : Holding),
+    valueXG (hist.filter (fun e => e.date ≤ D)) D tgt h = valueXG hist D tgt h
+
+/-- It does NOT hold on graphs with several equally old routes: a diamond AAA–BBB–DDD /
+    AAA–CCC–DDD with all four prices at second 10 and a later price `AAA 9 CCC` at second 50
+    recorded first.  The later price creates the AAA–CCC edge first, CCC is pushed and popped
+    before BBB, and the tie goes to the route through CCC (210) instead of BBB (100).
+    Reproduced on the binary; outside the graphs the property quantifies over. -/
+theorem C10.exchange_future_irrelevant_general_false : ¬ C10.ExchangeFutureIrrelevantGeneral := by
+  intro h
+  have := h
+    [{ src := "AAA", tgt := "CCC", date := 50, price := 9 }, { src := "AAA", tgt := "BBB", date := 10, price := 2 },
+     { src := "AAA", tgt := "CCC", date := 10, price := 3 }, { src := "BBB", tgt := "DDD", date := 10, price := 5 },
+     { src := "CCC", tgt := "DDD", date := 10, price := 7 }]
+    15 "DDD" { q := 10, comm := "AAA" }
+  revert this
+  decide +kernel
+
+/-- What holds on every graph, with the guard spelled out: if dropping the prices dated
+    after `D` leaves the list of applicable edges (in creation order, with their price
+    points) as it is, the valuation is the same — for every tie-break. -/
+theorem C10.exchange_future_irrelevant_general_partial (choose : DState → Option Comm)
+    (hist : List Entry) (D : Int) (tgt : Comm) (h : Holding)
+    (hg : fgraph (hist.filter (fun e => e.date ≤ D)) D = fgraph hist D) :
+    valueW choose (fgraph (hist.filter (fun e => e.date ≤ D)) D) D tgt h = valueW choose (fgraph hist D) D tgt h := by
+  rw [hg]
+
+/-- The VALUE does depend on the tie-break when equally old routes carry different
+    prices: the same diamond, boost's heap against a queue scanned from its newest end. -/
+theorem C10.value_tie_dependent :
+    ∃ (hist : List Entry) (D : Int) (tgt : Comm) (h : Holding),
+      valueW popChoice (fgraph hist D) D tgt h ≠ valueW altChoice (fgraph hist D) D tgt h :=
+  ⟨[{ src := "AAA", tgt := "BBB", date := 10, price := 2 }, { src := "AAA", tgt := "CCC", date := 10, price := 3 },
+    { src := "BBB", tgt := "DDD", date := 10, price := 5 }, { src := "CCC", tgt := "DDD", date := 10, price := 7 }],
+   15, "DDD", { q := 10, comm := "AAA" }, by decide +kernel⟩
+
+/-- It does not when all routes whose oldest price is as recent as possible multiply to the
+    same factor (in particular when there is only one such route). -/
+theorem C10.value_tie_independent (ch₁ ch₂ : DState → Option Comm) (h₁ : ChoiceOk ch₁) (h₂ : ChoiceOk ch₂)
+    (hist : List Entry) (D : Int) (tgt : Comm) (h : Holding)
+    (huniq : ∀ p₁ p₂ : List Comm,
+      p₁.head? = some h.comm → p₁.getLast? = some tgt → p₁.Nodup → Linked (fun a b => recentEdge hist a b D) p₁ →
+      p₂.head? = some h.comm → p₂.getLast? = some tgt → p₂.Nodup → Linked (fun a b => recentEdge hist a b D) p₂ →
+      oldestAge (fun a b => recentEdge hist a b D) D p₁ = oldestAge (fun a b => recentEdge hist a b D) D p₂ →
+      rateAlong (fun a b => recentEdge hist a b D) p₁ = rateAlong (fun a b => recentEdge hist a b D) p₂) :
+    valueW ch₁ (fgraph hist D) D tgt h = valueW ch₂ (fgraph hist D) D tgt h := by
+  have hre : feLookup (fgraph hist D) = fun a b => recentEdge hist a b D := by
+    funext a b; exact feLookup_fgraph hist D a b
+  unfold valueW
+  by_cases hc : h.comm = tgt
+  · simp [hc]
+  · simp only [hc, if_false, hre]
+    cases hp₁ : routeW ch₁ (fgraph hist D) D h.comm tgt with
+    | none =>
+      cases hp₂ : routeW ch₂ (fgraph hist D) D h.comm tgt with
+      | none => rfl
+      | some p₂ =>
+        have a2 := C10.route_is_applicable ch₂ h₂ hist D h.comm tgt p₂ hp₂
+        obtain ⟨p, hp⟩ := C10.route_complete ch₁ h₁ hist D h.comm tgt hc p₂ a2.1 a2.2.1 a2.2.2.2
+        rw [hp₁] at hp; cases hp
+    | some p₁ =>
+      have a1 := C10.route_is_applicable ch₁ h₁ hist D h.comm tgt p₁ hp₁
+      cases hp₂ : routeW ch₂ (fgraph hist D) D h.comm tgt with
+      | none =>
+        obtain ⟨p, hp⟩ := C10.route_complete ch₂ h₂ hist D h.comm tgt hc p₁ a1.1 a1.2.1 a1.2.2.2
+        rw [hp₂] at hp; cases hp
+      | some p₂ =>
+        have a2 := C10.route_is_applicable ch₂ h₂ hist D h.comm tgt p₂ hp₂
+        have hage := C10.route_age_tie_independent ch₁ ch₂ h₁ h₂ hist D h.comm tgt p₁ p₂ hp₁ hp₂
+        simp only [huniq p₁ p₂ a1.1 a1.2.1 a1.2.2.1 a1.2.2.2 a2.1 a2.2.1 a2.2.2.1 a2.2.2.2 hage]
+
+/-- boost's heap is an admissible tie-break, so all of the above is about `routeOf` / `valueXG`. -/
+theorem C10.heap_choice_admissible : ChoiceOk popChoice := popChoice_ok
+
 /-! ### non-vacuity -/
 
 /-- AAA priced in BBB on days 10 and 20 (the second twice, the later record winning),
@@ -404,5 +670,22 @@ example : (primaries (C10.exHist.filter (fun e => e.date ≤ 25))).contains "AAA
 
 example : marketPick (Graph.ofHistory C10.exHist) "AAA" 25 = some { src := "AAA", tgt := "BBB", date := 20, price := 7 / 2 } := by
   decide +kernel
+
+/-- a triangle: the direct quote AAA→CCC is older (day 5) than the two-hop route (day 20) -/
+def C10.exTriangle : List Entry :=
+  [{ src := "AAA", tgt := "CCC", date := 5, price := 20 },
+   { src := "AAA", tgt := "BBB", date := 20, price := 3 },
+   { src := "CCC", tgt := "BBB", date := 20, price := 1 / 2 }]
+
+example : routeOf (fgraph C10.exTriangle 25) 25 "AAA" "CCC" = some ["AAA", "BBB", "CCC"] := by decide +kernel
+
+example : routeOf (fgraph C10.exTriangle 10) 10 "AAA" "CCC" = some ["AAA", "CCC"] := by decide +kernel
+
+example : valueXG C10.exTriangle 25 "CCC" { q := 10, comm := "AAA" } = (60, "CCC") := by decide +kernel
+
+example : oldestAge (fun a b => recentEdge C10.exTriangle a b 25) 25 ["AAA", "BBB", "CCC"] = 5 := by decide +kernel
+
+/-- the forest example again, through the general route choice -/
+example : valueXG C10.exHist 25 "CCC" { q := 10, comm := "AAA" } = (35 / 4, "CCC") := by decide +kernel
 
 end Ledger
